@@ -41,7 +41,12 @@ pub struct Guest {
     pub exit_addr: u32,
     pub handlers: Vec<(u8, u32)>, // (vector, address)
     pub name: String,
+    /// the handlers of vectors 36 / 37 rewrite their own vector table entry (pairs H, H')
+    pub rewriting: bool,
 }
+
+/// upper byte of the stack pointer the guests start with (the second half of the all-vectors units sets it)
+pub static SP_TOP: std::sync::atomic::AtomicU32 = std::sync::atomic::AtomicU32::new(0);
 
 fn asm(isa: &Isa, name: &str, f: Fields) -> Vec<u8> {
     isa.encode(isa.row(name), &f)
@@ -54,7 +59,8 @@ pub fn build_guest(isa: &Isa, main_kind: usize, long_handlers: bool) -> Guest {
     // ---- main (uses ER0-ER3 only; ER4-ER6 belong to the handlers)
     c.extend(asm(isa, "MOV.L #xx:32,ERd", f(0, 0, 0x0001_0203)));
     c.extend(asm(isa, "MOV.L #xx:32,ERd", f(1, 0, 0x1020_3040)));
-    match main_kind {
+    let rewriting = main_kind >= 3;
+    match main_kind % 3 {
         0 => {
             c.extend(asm(isa, "ADD.L ERs,ERd", f(1, 0, 0)));
             c.extend(asm(isa, "INC.L #1,ERd", f(2, 0, 0)));
@@ -95,8 +101,11 @@ pub fn build_guest(isa: &Isa, main_kind: usize, long_handlers: bool) -> Guest {
     c.extend(asm(isa, "Bcc d:8", Fields { cc: 0, data: 0xfe, ..Default::default() }));
     // ---- handlers
     let mut handlers = Vec::new();
-    for v in 1..=63u8 {
-        handlers.push((v, CODE + c.len() as u32));
+    // rewriting guests: the handlers of vectors 36 and 37 come in pairs (H, H'); each stores the other's address into
+    // the vector table before it returns, and H' also counts in a second counter
+    let mut alt_handler_fixups: Vec<(usize, u8, bool)> = Vec::new(); // (offset of the imm32, vector, points to the alternate)
+    let mut alt_addr = std::collections::BTreeMap::new();
+    let mut emit_handler = |c: &mut Vec<u8>, v: u8, alternate: bool, fix: &mut Vec<(usize, u8, bool)>| {
         c.extend(asm(isa, "MOV.B #xx:8,Rd", f(12, 0, v as u32))); // R4L = v
         c.extend(asm(isa, "MOV.B Rs,@ERd", Fields { rs: 12, ra: 6, ..Default::default() }));
         c.extend(asm(isa, "ADDS #1,ERd", f(6, 0, 0)));
@@ -108,12 +117,36 @@ pub fn build_guest(isa: &Isa, main_kind: usize, long_handlers: bool) -> Guest {
         c.extend(asm(isa, "MOV.B @aa:24,Rd", Fields { rd: 12, data: CNT + v as u32, ..Default::default() }));
         c.extend(asm(isa, "INC.B Rd", f(12, 0, 0)));
         c.extend(asm(isa, "MOV.B Rs,@aa:24", Fields { rs: 12, data: CNT + v as u32, ..Default::default() }));
+        if alternate {
+            c.extend(asm(isa, "MOV.B @aa:24,Rd", Fields { rd: 12, data: CNT + 0x40 + v as u32, ..Default::default() }));
+            c.extend(asm(isa, "INC.B Rd", f(12, 0, 0)));
+            c.extend(asm(isa, "MOV.B Rs,@aa:24", Fields { rs: 12, data: CNT + 0x40 + v as u32, ..Default::default() }));
+        }
+        if rewriting && (v == 36 || v == 37) {
+            // vector table entry v := the other handler of the pair (an ordinary store into the writable vector area)
+            let at = c.len() + 2;
+            c.extend(asm(isa, "MOV.L #xx:32,ERd", f(4, 0, 0)));
+            fix.push((at, v, !alternate));
+            c.extend(asm(isa, "MOV.L ERs,@aa:24", Fields { rs: 4, data: 4 * v as u32, ..Default::default() }));
+        }
         c.extend(asm(isa, "MOV.B #xx:8,Rd", f(12, 0, 0x80 | v as u32)));
         c.extend(asm(isa, "MOV.B Rs,@ERd", Fields { rs: 12, ra: 6, ..Default::default() }));
         c.extend(asm(isa, "ADDS #1,ERd", f(6, 0, 0)));
         c.extend(asm(isa, "RTE", Fields::default()));
+    };
+    for v in 1..=63u8 {
+        handlers.push((v, CODE + c.len() as u32));
+        emit_handler(&mut c, v, false, &mut alt_handler_fixups);
+        if rewriting && (v == 36 || v == 37) {
+            alt_addr.insert(v, CODE + c.len() as u32);
+            emit_handler(&mut c, v, true, &mut alt_handler_fixups);
+        }
     }
-    Guest { code: c, exit_addr, handlers, name: format!("main{}-{}", main_kind, if long_handlers { "long" } else { "short" }) }
+    for (at, v, to_alt) in alt_handler_fixups {
+        let target = if to_alt { alt_addr[&v] } else { handlers.iter().find(|h| h.0 == v).unwrap().1 };
+        c[at..at + 4].copy_from_slice(&target.to_be_bytes());
+    }
+    Guest { code: c, exit_addr, handlers, name: format!("main{}-{}", main_kind, if long_handlers { "long" } else { "short" }), rewriting }
 }
 
 pub fn load_guest(cpu: &mut Cpu, g: &Guest) {
@@ -130,8 +163,12 @@ fn reset_run_state(cpu: &mut Cpu, g: &Guest) {
     cpu.er = [0; 8];
     cpu.er[2] = CODE;
     cpu.er[6] = LOG;
-    cpu.er[7] = STACK;
+    cpu.er[7] = STACK | SP_TOP.load(std::sync::atomic::Ordering::Relaxed);
     cpu.exit_addr = g.exit_addr;
+    // the vector table as loaded (a rewriting guest has changed it)
+    for &(v, a) in g.handlers.iter() {
+        poke(cpu, v as u32 * 4, &a.to_be_bytes());
+    }
     cpu.vh_set_ccr(0);
     cpu.vh_set_state_sum(0);
     cpu.vh_clear_pending_interrupts();
@@ -253,6 +290,9 @@ pub fn judge(g: &Guest, schedule_req: &[(usize, u8)], o: &RunObs, base: &RunObs)
         if o.counters[v as usize] != want {
             return Some(format!("vector {} handler ran {} times, {} requests were injected", v, o.counters[v as usize], want));
         }
+        if g.rewriting && (v == 36 || v == 37) && o.counters[0x40 + v as usize] != want / 2 {
+            return Some(format!("vector {}: the handlers rewrite the vector table entry after every entry, so of {} entries {} must go through the second handler of the pair; {} did (an entry did not use the vector as it stood in memory)", v, want, want / 2, o.counters[0x40 + v as usize]));
+        }
     }
     // (d) the interrupted program computes what it computes without interrupts
     if o.er[..4] != base.er[..4] || o.er[7] != base.er[7] || o.data != base.data || o.ccr != base.ccr || o.pc != base.pc {
@@ -305,7 +345,7 @@ fn nth_multiset(mut idx: u64, k: usize, n: u64) -> Vec<u64> {
 fn c10_units(tier: Tier) -> Vec<Unit> {
     let mut units = Vec::new();
     let kmax = if tier == Tier::Thorough { 4 } else { 3 };
-    for main_kind in 0..3usize {
+    for main_kind in [0usize, 1, 2, 4] {
         for long in [false, true] {
             for k in 0..=kmax {
                 if tier == Tier::Thorough && k == 4 && long {
@@ -374,13 +414,16 @@ fn c10_units(tier: Tier) -> Vec<Unit> {
         units.push(Unit::new(
             &name,
             63,
-            "every ordered pair (v1, v2) of vector numbers 1-63 injected at {the same boundary, v2 one iteration into v1's handler (masked), v2 well after v1 returned} and every triple (v1, v2, v1) as a burst into v1's handler, through the real run(): 63 x 63 x 4 schedules per guest",
+            "every ordered pair (v1, v2) of vector numbers 1-63 injected at {the same boundary, v2 one iteration into v1's handler (masked), v2 well after v1 returned} and every triple (v1, v2, v1) as a burst into v1's handler, through the real run(), with the stack pointer's upper byte 00 and 5A: 63 x 63 x 4 x 2 schedules per guest",
             move |ctx, chunk| {
                 let g = build_guest(&ctx.isa, 1, long);
                 let mut cpu = Cpu::new();
                 load_guest(&mut cpu, &g);
-                let base = run_with_schedule(&mut cpu, &g, &[], 500);
                 let v1 = chunk as u8 + 1;
+                // second half: the stack pointer carries a non-zero upper byte (it takes no part in addressing and must survive)
+                for top in [0u32, 0x5a00_0000] {
+                SP_TOP.store(top, std::sync::atomic::Ordering::Relaxed);
+                let base = run_with_schedule(&mut cpu, &g, &[], 500);
                 for v2 in 1..=63u8 {
                     let far = if long { 24 } else { 16 };
                     for schedule in [vec![(2usize, v1), (2, v2)], vec![(2, v1), (3, v2)], vec![(2, v1), (far, v2)], vec![(2, v1), (3, v2), (4, v1)]] {
@@ -391,14 +434,17 @@ fn c10_units(tier: Tier) -> Vec<Unit> {
                         let bit = (o.log.iter().fold(0u64, |h, &b| h.wrapping_mul(131).wrapping_add(b as u64)) & 0xffff) as usize;
                         ctx.st.outcome_bits[bit / 64] |= 1 << (bit % 64);
                         if let Some(msg) = judge(&g, &schedule, &o, &base) {
-                            let case = json!({"guest": g.name, "main": 1, "long": long, "schedule": schedule.iter().map(|x| json!([x.0, x.1])).collect::<Vec<_>>()});
+                            let case = json!({"guest": g.name, "main": 1, "long": long, "sp_top": top, "schedule": schedule.iter().map(|x| json!([x.0, x.1])).collect::<Vec<_>>()});
                             ctx.custom_violation("c10", msg, case, json!(null), json!({"log": o.log, "result": o.result}));
                             if ctx.stop {
+                                SP_TOP.store(0, std::sync::atomic::Ordering::Relaxed);
                                 return;
                             }
                         }
                     }
                 }
+                }
+                SP_TOP.store(0, std::sync::atomic::Ordering::Relaxed);
             },
         ));
     }
@@ -894,6 +940,7 @@ pub fn replay_c10(case: &Value) -> bool {
     }
     let isa = Isa::new();
     let g = build_guest(&isa, case["main"].as_u64().unwrap_or(0) as usize, case["long"].as_bool().unwrap_or(false));
+    SP_TOP.store(case["sp_top"].as_u64().unwrap_or(0) as u32, std::sync::atomic::Ordering::Relaxed);
     let mut cpu = Cpu::new();
     load_guest(&mut cpu, &g);
     let base = run_with_schedule(&mut cpu, &g, &[], 500);
